@@ -82,3 +82,124 @@ def c01(tier, rep):
     rep.set("rule", "all paths of the typed operator transition system (%s); every program runs on every row of its start kind's input table and is compared, value and full callback trace, with the documented method chain compiled in the same binary; non-trivial = trace non-empty and >= 2 distinct outcomes over its rows" % bound)
     for p in progs[:: max(1, len(progs) // 5)][:5]:
         rep.sample({"dsl": p.meta["dsl"], "reference": p.meta["ref"], "result": fr.results.get(p.id, {}).get("sample")})
+
+
+# -------------------------------------------------------------------------------------------------
+KINDS8 = ["join", "try_join", "join_spawn", "try_join_spawn", "join_async", "try_join_async", "join_async_spawn", "try_join_async_spawn"]
+TRY6 = ["try_join", "try_join_spawn", "try_spawn", "try_join_async", "try_join_async_spawn", "try_async_spawn"]
+
+
+def sample_family(rep, progs, fr, k=5):
+    for p in progs[:: max(1, len(progs) // k)][:k]:
+        rep.sample({"dsl": p.meta["dsl"], "result": fr.results.get(p.id, {}).get("sample")})
+
+
+@check("C04", "exploration")
+def c04(tier, rep):
+    from . import fam_profiles as fp
+
+    if tier == "quick":
+        profs = [ds for ds in fp.profiles(4, 3)] + [ds for ds in fp.profiles(3, 4) if max(ds) == 4]
+        aprofs = set(fp.profiles(3, 3))
+        bound = "all depth profiles n<=4,d<=3 and n<=3,d<=4 (async kinds: n<=3,d<=3)"
+    else:
+        profs = [ds for ds in fp.profiles(4, 4)] + [ds for ds in fp.profiles(6, 2, nmin=5)]
+        aprofs = set(profs)
+        bound = "all depth profiles n<=4,d<=4 and n in {5,6},d<=2"
+    progs = []
+    for ds in profs:
+        n = len(ds)
+        for mac in KINDS8:
+            if "async" in mac and ds not in aprofs:
+                continue
+            is_try = mac.startswith("try")
+            hk = "map" if is_try else "then"
+            modes = [
+                ("plain", dict()),
+                ("handler", dict(handler=hk)),
+                ("letall", dict(lets=[(b, b % 2 == 1) for b in range(n)])),
+                ("letalt", dict(lets=[(b, False) for b in range(0, n, 2)], handler=("and_then" if is_try else "then"))),
+            ]
+            for mname, kw in modes:
+                p = fp.build(mac, ds, **kw)
+                progs.append(fp.to_prog("%s/%s/%s" % (mac, fp.pname(ds), mname), p, fp.offset_rows()))
+    fr = e2.run_family("c04", progs, extra_header=fp.HEADER)
+    judge_family(rep, fr)
+    rep.set("profiles", len(profs))
+    rep.set("rule", "%s x 8 macro kinds x {no handler, handler, let on every branch, let on alternate branches + handler}; branch i starts at 100*i+offset and adds 1 per step; result (and handler arguments) compared with the reference tuple; distinct = program, non-trivial = trace non-empty and 2 distinct outcomes over the offset rows" % bound)
+    sample_family(rep, progs, fr)
+
+
+# -------------------------------------------------------------------------------------------------
+def tryfail_family(tier):
+    """C05/C06: every failure placement over every depth profile, rich steps (capture, error-side callback,
+    non-closure operand in every step >= 1)."""
+    from . import fam_profiles as fp
+
+    if tier == "quick":
+        profs = list(fp.profiles(4, 3))
+        bound = "depth profiles n<=4,d<=3"
+    else:
+        profs = list(fp.profiles(4, 3)) + [ds for ds in fp.profiles(3, 4) if max(ds) == 4] + list(fp.profiles(5, 2, nmin=5))
+        bound = "depth profiles n<=4,d<=3; n<=3,d<=4; n=5,d<=2"
+    progs = []
+    for ds in profs:
+        for mac in TRY6:
+            for fl in ("Res", "Opt"):
+                if "async" in mac and fl == "Opt":
+                    continue
+                p = fp.build(mac, ds, flavour=fl, rich=True)
+                progs.append(fp.to_prog("%s/%s/%s" % (mac, fl, fp.pname(ds)), p, [[0]], sub=fp.fail_slots(ds)))
+                if len(ds) <= 3 and max(ds) > 1:
+                    p = fp.build(mac, ds, flavour=fl, rich=True, wrap=True)
+                    progs.append(fp.to_prog("%s/%s/%s/w" % (mac, fl, fp.pname(ds)), p, [[0]], sub=fp.fail_slots(ds)))
+    return progs, profs, bound
+
+
+def judge_classes(rep, fr, want):
+    """like judge_family but only mismatches of class `want` ('value' or 'trace') are violations of this property"""
+    rep.add("programs", fr.programs)
+    rep.add("evaluations", fr.rows + len(fr.compile_violations))
+    rep.add("input_rows", fr.rows)
+    rep.add("distinct_nontrivial", fr.nontrivial)
+    rep.add("build_s", round(fr.build_s, 1))
+    rep.add("run_s", round(fr.run_s, 1))
+    other = 0
+    for p, rendered in fr.compile_violations:
+        first = next((l for l in rendered.splitlines() if l.startswith("error")), rendered[:200])
+        rep.violate("%s | compile" % p.meta["dsl"], "macro output does not compile where the reference does: %s [%s]" % (p.meta["dsl"], first),
+                    {"program": p.id, "dsl": p.meta["dsl"], "reference": p.meta["ref"], "rustc": rendered})
+    for p, mm, n in fr.mismatches:
+        if mm.get("class") != want:
+            other += 1
+            continue
+        rep.violate(
+            "%s | row %s" % (p.meta["dsl"], mm["row"]),
+            "%s on fault row %s: reference %s / macro %s" % (p.meta["dsl"], mm["row"], json.dumps(mm["ref"])[:300], json.dumps(mm["mac"])[:300]),
+            {"program": p.id, "dsl": p.meta["dsl"], "reference": p.meta["ref"], "mismatch": mm, "mac_body": p.mac, "ref_body": p.ref},
+        )
+    rep.set("mismatches_of_other_class_left_to_sibling_property", other)
+
+
+@check("C05", "fault_enumeration")
+def c05(tier, rep):
+    from . import fam_profiles as fp
+
+    progs, profs, bound = tryfail_family(tier)
+    fr = e2.run_family("tryfail", progs, extra_header=fp.HEADER)
+    judge_classes(rep, fr, "value")
+    rep.set("profiles", len(profs))
+    rep.set("rule", "%s x 6 try macros x {Result, Option} (async: Result); rows = EVERY subset of (branch, step) positions marked failing; oracle: result value = the lowest-numbered branch failing in the earliest failing step, payload unchanged (async kinds: any branch failing in that step), all-success rows = Some/Ok of the tuple; non-trivial program = trace non-empty and >= 2 distinct outcomes" % bound)
+    sample_family(rep, progs, fr)
+
+
+@check("C06", "fault_enumeration")
+def c06(tier, rep):
+    from . import fam_profiles as fp
+
+    progs, profs, bound = tryfail_family(tier)
+    fr = e2.run_family("tryfail", progs, extra_header=fp.HEADER)
+    judge_classes(rep, fr, "trace")
+    rep.set("profiles", len(profs))
+    rep.set("rule", "%s x 6 try macros x {Result, Option}; every step >= 1 of every branch carries a block capture, an error-side callback/operand and a non-closure operand with a visible evaluation; rows = EVERY subset of failing (branch, step) positions; oracle on the event trace: equal to the reference's (sequential kinds: full order; spawn kinds: per-branch projections + step monotonicity; async: per-branch prefix), i.e. nothing of a later step and no handler after a failing step, the failing step complete in sync/spawn kinds" % bound)
+    sample_family(rep, progs, fr)
